@@ -14,6 +14,9 @@
 (* Nodes[i+1] = [id, pre, x, e, p]: implementation state i, its projection, *)
 (* whether it was expanded, its edges <<to, request, ok, err, changed>> and *)
 (* its probes <<refused request q, probe request r, ok, err, to>>.          *)
+(* to = -1: the request panicked (no post state); to = -2: the post state   *)
+(* is new but the exploration's state budget was used up (only the response *)
+(* and the changed-mask of such an edge are judged).                        *)
 (***************************************************************************)
 EXTENDS Tracker, Json, IOUtils, SequencesExt
 
@@ -41,10 +44,16 @@ Init == /\ node = 0
         /\ g = InitGhost
         /\ last = [k |-> "init"]
 
+\* the monitors on one edge (an edge into the unexplored region is judged on response and mask only)
+EdgeGhost(gh, nd, e) ==
+  IF e[1] = -2
+  THEN [gh EXCEPT !.frameOK = gh.frameOK /\ (e[3] = 0 => e[5] = 0)]
+  ELSE Ghost(gh, K, Obs(FromJson(nd.pre)), Alphabet[e[2]], Resp(e[3], e[4]), e[5], PostOf(nd, e[1]))
+
 EdgeStep == \E j \in DOMAIN Nodes[node + 1].e :
   LET nd == Nodes[node + 1]
       e == nd.e[j] IN
-  /\ g' = Ghost(g, K, Obs(FromJson(nd.pre)), Alphabet[e[2]], Resp(e[3], e[4]), e[5], PostOf(nd, e[1]))
+  /\ g' = EdgeGhost(g, nd, e)
   /\ node' = IF e[1] >= 0 THEN e[1] ELSE node
   /\ last' = [k |-> "edge", from |-> node, ri |-> e[2], ok |-> e[3], err |-> e[4], chg |-> e[5]]
 
@@ -72,18 +81,18 @@ ProbesWhere(Bad(_, _)) == UNION {IdxWhere(i, Nodes[i].p, Bad) : i \in DOMAIN Nod
 EdgeConforms(nd, e) ==
   LET o == Step(FromJson(nd.pre), Alphabet[e[2]], K) IN
   /\ o.resp = Resp(e[3], e[4])
-  /\ e[3] # 2 => Obs(o.s) = PostOf(nd, e[1])
+  /\ e[1] >= 0 => Obs(o.s) = PostOf(nd, e[1])
 ProbeConforms(nd, p) ==
   LET o1 == Step(FromJson(nd.pre), Alphabet[p[1]], K)
       o2 == Step(o1.s, Alphabet[p[2]], K) IN
   /\ o2.resp = Resp(p[3], p[4])
-  /\ p[3] # 2 => Obs(o2.s) = PostOf(nd, p[5])
+  /\ p[5] >= 0 => Obs(o2.s) = PostOf(nd, p[5])
 DivergentEdges  == EdgesWhere(LAMBDA nd, e : ~EdgeConforms(nd, e))
 DivergentProbes == ProbesWhere(LAMBDA nd, p : ~ProbeConforms(nd, p))
 
 \* 2./3. the monitors, edge by edge
-MoveBad  == EdgesWhere(LAMBDA nd, e : ~MoveValid(K, Obs(FromJson(nd.pre)), Alphabet[e[2]], Resp(e[3], e[4]), PostOf(nd, e[1])))
-FrameBad == EdgesWhere(LAMBDA nd, e : ~Ghost(InitGhost, K, Obs(FromJson(nd.pre)), Alphabet[e[2]], Resp(e[3], e[4]), e[5], PostOf(nd, e[1])).frameOK)
+MoveBad  == EdgesWhere(LAMBDA nd, e : ~EdgeGhost(InitGhost, nd, e).moveOK)
+FrameBad == EdgesWhere(LAMBDA nd, e : ~EdgeGhost(InitGhost, nd, e).frameOK)
 LaterBad == ProbesWhere(LAMBDA nd, p : ~GhostProbe(InitGhost, Resp(p[3], p[4])).laterOK)
 
 NEdges  == FoldLeft(LAMBDA acc, nd : acc + Len(nd.e), 0, Nodes)
